@@ -24,15 +24,28 @@ func (b PathVariablesBuilder) Len() int {
 	return b.objectBuilder.Len()
 }
 
-func (b PathVariablesBuilder) Build() *PathVariables {
+// PathVariableTypeError is returned by PathVariablesBuilder.Build when a user type used by a
+// path variable cannot be added to the schema of the path variables.
+type PathVariableTypeError struct {
+	Err      error
+	TypeName string
+}
+
+func (e PathVariableTypeError) Error() string { return e.Err.Error() }
+
+func (b PathVariablesBuilder) Build() (*PathVariables, error) {
 	uutNames := b.objectBuilder.UserTypeNames()
 	for _, name := range uutNames {
 		if ut, ok := b.catalogUserTypes.Get(name); ok {
+			var err error
 			switch es := ut.Schema.(type) {
 			case *ExchangeJSightSchema:
-				b.objectBuilder.AddType(name, es.JSchema)
+				err = b.objectBuilder.AddType(name, es.JSchema)
 			case *ExchangeRegexSchema:
-				b.objectBuilder.AddType(name, es.RSchema)
+				err = b.objectBuilder.AddType(name, es.RSchema)
+			}
+			if err != nil {
+				return nil, PathVariableTypeError{TypeName: name, Err: err}
 			}
 		}
 	}
@@ -45,5 +58,5 @@ func (b PathVariablesBuilder) Build() *PathVariables {
 
 	return &PathVariables{
 		Schema: es,
-	}
+	}, nil
 }
